@@ -146,7 +146,8 @@ Proof.
   unfold markov_level, MarkovSession.pt_out.
   destruct (slots_of_pt g t) as [|[c vs] rest]; [discriminate|].
   cbn [scat svals]. destruct c; try discriminate. destruct vs as [|lv more]; [discriminate|].
-  intros H. cbn [expand scat svals]. unfold omen_emit, omen_fn. rewrite H. reflexivity.
+  intros H. cbn [expand scat svals]. unfold omen_emit, omen_fn. rewrite H.
+  unfold level_strings_idx. exact (level_strings_fast (sg_omen g) T).
 Qed.
 
 Lemma stream_app (g : sgram) l1 l2 : stream g (l1 ++ l2) = stream g l1 ++ stream g l2.
